@@ -89,8 +89,9 @@ package subscriptions
 // every call of the iterator in walk passes the data of one node: count it for that node
 //@ ghost-after (*Node).walk callparam iterator
 //@   set #hits := update(#hits, arg0_owner, #hits[arg0_owner] + 1)
+// the iterator may do anything except touch tries, their locks, or existing byte rows (checked for every closure passed in)
 //@ assume-call (*Node).walk.iterator(b []byte)
-//@   modifies #iterCalls
+//@   modifies *, except(allfields(*Node)), except(allmaps(Node.Children)), except(allfields(*tree)), except(heap(K_sync_RWMutex)), except(heap(E_byte)), newrows(bytes), #iterCalls
 //@   ensures #iterCalls == old(#iterCalls) + 1
 
 // C01 (soundness): walk reports only nodes of this tree whose key matches the topic, each time with that node's data
@@ -108,7 +109,7 @@ package subscriptions
 //@   ensures topic != nil && lfirst(string(topic)) != "#" && lfirst(string(topic)) in this.Children
 //@             ==> #walked[this.Children[lfirst(string(topic))]] >= old(#walked)[this.Children[lfirst(string(topic))]] + 1
 //@   ensures forall r *Node :: {#walked[r]} #walked[r] >= old(#walked)[r]
-//@   modifies #hits, #iterCalls, #walked
+//@   modifies *, except(allfields(*Node)), except(allmaps(Node.Children)), except(allfields(*tree)), except(heap(K_sync_RWMutex)), except(heap(E_byte)), newrows(bytes), #hits, #iterCalls, #walked
 //@ ghost-after (*Node).walk call (*Node).walk
 //@   set #walked := update(#walked, n, #walked[n] + 1)
 //@ loop (*Node).walk#1
@@ -121,20 +122,11 @@ package subscriptions
 //@   invariant forall r *Node :: {#hits[r]} #hits[r] > old(#hits)[r] ==> st_in(this.#tree, r) && msub(this.#key, r.#key, string(old(topic)), false)
 
 // ---- iteration (C19) ----------------------------------------------------------------------------
-// kpre(a, b): the key a is a prefix of the key b (b lies in the subtree of a). Keys are free terms over kroot/kjoin, so two
-// different children of one node have disjoint subtrees (kpre_split; by induction on b, not mechanised -- listed as assumed).
-//@ fun kpre(a Key, b Key) bool
-//@ axiom kpre_refl: forall a Key :: {kpre(a, a)} kpre(a, a)
-//@ axiom kpre_join: forall a Key, b Key, s string :: {kpre(a, kjoin(b, s))} kpre(a, kjoin(b, s)) <==> (a == kjoin(b, s) || kpre(a, b))
-//@ axiom kpre_root: forall a Key :: {kpre(a, kroot())} kpre(a, kroot()) ==> a == kroot()
-//@ axiom kpre_split: forall k Key, s string, t string, x Key :: {kpre(kjoin(k, s), x), kpre(kjoin(k, t), x)} kpre(kjoin(k, s), x) && kpre(kjoin(k, t), x) ==> s == t
-//@ axiom kpre_strict: forall k Key, s string :: {kjoin(k, s)} !kpre(kjoin(k, s), k)
-//@ axiom kpre_down: forall k Key, s string, x Key :: {kpre(kjoin(k, s), x)} kpre(kjoin(k, s), x) ==> kpre(k, x)
-
+// kpre(a, b): the key a is a prefix of the key b (b lies in the subtree of a); see /verif/specs/40_topics.spec
 //@ ghost-after (*Node).iterate callparam iterator
 //@   set #hits := update(#hits, arg0_owner, #hits[arg0_owner] + 1)
 //@ assume-call (*Node).iterate.iterator(b []byte)
-//@   modifies #iterCalls
+//@   modifies *, except(allfields(*Node)), except(allmaps(Node.Children)), except(allfields(*tree)), except(heap(K_sync_RWMutex)), except(heap(E_byte)), newrows(bytes), #iterCalls
 //@   ensures #iterCalls == old(#iterCalls) + 1
 //@ ghost-after (*Node).iterate call (*Node).iterate
 //@   set #walked := update(#walked, n, #walked[n] + 1)
@@ -148,7 +140,7 @@ package subscriptions
 //@   ensures len(this.Data) > 0 ==> #hits[this] == old(#hits)[this] + 1
 //@   ensures forall k string :: {this.Children[k]} k in this.Children ==> #walked[this.Children[k]] >= old(#walked)[this.Children[k]] + 1
 //@   ensures forall r *Node :: {#walked[r]} #walked[r] >= old(#walked)[r]
-//@   modifies #hits, #iterCalls, #walked
+//@   modifies *, except(allfields(*Node)), except(allmaps(Node.Children)), except(allfields(*tree)), except(heap(K_sync_RWMutex)), except(heap(E_byte)), newrows(bytes), #hits, #iterCalls, #walked
 //@ loop (*Node).iterate#1
 //@   invariant this != nil && this.#tree != nil && st_wf(this.#tree)
 //@   invariant forall r *Node :: {#walked[r]} #walked[r] >= old(#walked)[r]
@@ -218,9 +210,9 @@ package subscriptions
 //@   ensures forall r *Node :: {#hits[r]} #hits[r] >= old(#hits)[r]
 //@   ensures forall r *Node :: {#hits[r]} #hits[r] > old(#hits)[r] ==> st_in(this.root, r) && msub(kroot(), r.#key, string(topic), topic == nil)
 //@   ensures #walked[this.root] >= old(#walked)[this.root] + 1
-//@   modifies #hits, #iterCalls, #walked, heap(K_sync_RWMutex)
+//@   modifies *, except(allfields(*Node)), except(allmaps(Node.Children)), except(allfields(*tree)), except(heap(K_sync_RWMutex)), except(heap(E_byte)), newrows(bytes), #hits, #iterCalls, #walked
 //@ assume-call (*tree).Walk.iterator(b []byte)
-//@   modifies #iterCalls
+//@   modifies *, except(allfields(*Node)), except(allmaps(Node.Children)), except(allfields(*tree)), except(heap(K_sync_RWMutex)), except(heap(E_byte)), newrows(bytes), #iterCalls
 //@   ensures #iterCalls == old(#iterCalls) + 1
 //@ ghost-after (*tree).Walk call (*Node).walk
 //@   set #walked := update(#walked, this.root, #walked[this.root] + 1)
@@ -230,9 +222,9 @@ package subscriptions
 //@   ensures forall r *Node :: {#hits[r]} #hits[r] >= old(#hits)[r] && #hits[r] <= old(#hits)[r] + 1
 //@   ensures forall r *Node :: {#hits[r]} #hits[r] > old(#hits)[r] ==> st_in(this.root, r) && len(r.Data) > 0
 //@   ensures #walked[this.root] >= old(#walked)[this.root] + 1
-//@   modifies #hits, #iterCalls, #walked, heap(K_sync_RWMutex)
+//@   modifies *, except(allfields(*Node)), except(allmaps(Node.Children)), except(allfields(*tree)), except(heap(K_sync_RWMutex)), except(heap(E_byte)), newrows(bytes), #hits, #iterCalls, #walked
 //@ assume-call (*tree).Iterate.iterator(b []byte)
-//@   modifies #iterCalls
+//@   modifies *, except(allfields(*Node)), except(allmaps(Node.Children)), except(allfields(*tree)), except(heap(K_sync_RWMutex)), except(heap(E_byte)), newrows(bytes), #iterCalls
 //@   ensures #iterCalls == old(#iterCalls) + 1
 //@ ghost-after (*tree).Iterate call (*Node).iterate
 //@   set #walked := update(#walked, this.root, #walked[this.root] + 1)
